@@ -479,7 +479,8 @@ def writeFITSTable(filename, table):
         # Cause error columns to always be floats even when they are set to -1
         if name.startswith('err_'):
             fmt = 'E'
-        elif name == 'uuid':
+        elif table[name].dtype.kind in ('U', 'S'):
+            # size string columns from the longest value, not from row 0
             fmt = '{0}A'.format(max(len(val) for val in table[name]))
         else:
             fmt = FITSTableType(table[name][0])
